@@ -636,12 +636,12 @@ theorem inputItems_tiso (u : UsedTypes) :
 theorem variableType_tiso (v : RVariable) : variableType (tC R t c) (tVar R v) = variableType c v := by
   simp only [variableType, tC_s, tC_o, tC_cs, tVar_ty, Ren.ft_id, Ren.ft_quals, h.typeName]
 
-theorem literalOk_tiso (fuel : Nat) : ∀ (v : Value) (ty : TypeId),
-    literalOk t fuel v (R.tid ty) = literalOk c.s fuel v ty := by
+theorem literalOk_tiso (fuel : Nat) : ∀ (v : Value) (ty : TypeId) (quals : List Qual),
+    literalOk t fuel v (R.tid ty) quals = literalOk c.s fuel v ty quals := by
   induction fuel with
-  | zero => intro _ _; rfl
+  | zero => intro _ _ _; rfl
   | succ fuel ih =>
-    intro v ty
+    intro v ty quals
     cases v with
     | list xs => simp only [literalOk, ih]
     | obj kvs =>
@@ -652,14 +652,14 @@ theorem literalOk_tiso (fuel : Nat) : ∀ (v : Value) (ty : TypeId),
       cases c.s.getInput iid with
       | error e => rfl
       | ok i =>
-        simp only [Except.map, bind, Except.bind, Ren.input_fields]
+        simp only [Except.map, bind, Except.bind, Ren.input_fields, Ren.input_isOneOf]
         apply forM_map_eq
         intro p _
         obtain ⟨fname, fty⟩ := p
-        simp only [Ren.ft_id]
+        simp only [Ren.ft_id, Ren.ft_quals]
         cases kvs.find? (·.1 == fname) with
         | none => rfl
-        | some kv => simp only [ih]
+        | some kv => simp only [ih]; rfl
     | int _ => rfl
     | float _ => rfl
     | str _ => rfl
@@ -683,7 +683,7 @@ theorem variablesItems_tiso (op : Nat) : variablesItems (tC R t c) op = variable
                 ty := ty, skipNone := c.o.skipNone && v.ty.quals.head? != some .required } : RField))
       (c.q.opVariables op) (fun v _ => by simp only [variableType_tiso c h, tVar_name, tVar_ty, Ren.ft_quals])
     rw [e1, filterMapM_map]
-    simp only [tVar_default, tVar_ty, tVar_name, Ren.ft_id, variableType_tiso c h, literalOk_tiso c h]
+    simp only [tVar_default, tVar_ty, tVar_name, Ren.ft_id, Ren.ft_quals, variableType_tiso c h, literalOk_tiso c h]
     rfl
 
 end
